@@ -106,6 +106,10 @@ def run(ctx):
         except Exception as e:
             ctx.skip("root not computed: %s: %s" % (type(e).__name__, str(e)[:60]))
             continue
+        if not np.isfinite(float(res.value)):
+            ctx.fail("root:%s:not-finite" % name, "find_root (%s) returns a non-finite central value %r for d = %r although the equation has a regular root" % (name, float(res.value), [float(o.value) for o in d]),
+                     {"family": name, "d": [float(o.value) for o in d]})
+            continue
         closed = "None" if inv is None else "(Some %s)" % inv([E.var(1 + m) for m in range(nd)]).coq
         ic = "(mkICase [%s] 1%%nat 1%%nat [%s] [%s] [%s] [%s] (1 # 2 ^ 18))" % (fexpr.coq, qlit(float(res.value)), "; ".join(qlit(float(o.value)) for o in d), obsutil.obs_term(res), "; ".join(obsutil.obs_term(o) for o in d))
         term = "(mkRCase %s (1 # 2 ^ 30) %s)" % (ic, closed)
@@ -143,6 +147,9 @@ def run(ctx):
                 res = out[0]
         except Exception as e:
             ctx.skip("integral not computed: %s: %s" % (type(e).__name__, str(e)[:60]))
+            continue
+        if not np.isfinite(float(res.value)):
+            ctx.fail("quad:%s:not-finite" % name, "quad (%s) returns a non-finite central value" % name, {"family": name})
             continue
         # variables of the equation G(p, a, b) - u = 0: u = EV 0, the observable inputs follow in the order pobs + bobs; plain numbers are constants
         dobs, slot = [], {}
